@@ -130,32 +130,38 @@ def run(ctx):
     g = cg.cfg(su)
     callc = nodes_calling(g, lambda c: isinstance(c.func, ast.Attribute) and c.func.attr == '_construct_optimistic_criteria_')
     ctx.need(callc, 'C20: _save_updated_ no longer calls _construct_optimistic_criteria_')
-    gov = None
-    for s in walk_no_nested(su.node):
-        if isinstance(s, ast.If) and any(callc[0].ast is b for b in s.body): gov = s
-    ctx.need(gov is not None, 'C20: governing test of the optimistic branch not found')
-    # the optimistic branch is taken exactly when (no db_session or an optimistic one) and the object is not locked -- evaluated over the 2x2x2
-    # combinations of the three atoms, with local flags resolved (so `optimistic_session = ...; if optimistic_session and ...` and the inlined
-    # condition are the same thing)
+    # the optimistic criteria are built exactly when (no db_session or an optimistic one) and the object is not locked: for each of the 2x2x2
+    # combinations of the three atoms the call of _construct_optimistic_criteria_ is reachable iff that holds -- decided on the CFG with
+    # three-valued tests and local flags/aliases resolved, so the shape of the branch (if/else order, De Morgan, hoisted locals) does not matter
     from ..typestate import eval_test, resolve_flags
-    t = resolve_flags(su.node, gov.test)
-    ok = True
+    from ..q import alias_map
+    am_su = alias_map(su.node)
+    sess_names = {'cache.db_session'} | {n_ for n_, src_ in am_su.items() if src_ == 'cache.db_session'}
+    ok = True; witness = ''
     for none_ in (True, False):
         for opt in (True, False):
             for locked in (True, False):
                 def atom(text, node, none_=none_, opt=opt, locked=locked):
                     x = text.replace(' ', '')
-                    if x == 'cache.db_sessionisNone': return none_
-                    if x == 'cache.db_sessionisnotNone': return not none_
-                    if x == 'cache.db_session.optimistic': return opt
+                    for sn in sess_names:
+                        if x == sn + 'isNone': return none_
+                        if x == sn + 'isnotNone': return not none_
+                        if x == sn + '.optimistic': return opt
                     if x == '%snotincache.for_update' % su.recv: return not locked
                     if x == '%sincache.for_update' % su.recv: return locked
                     return None
+                def eo(x, y, lab):
+                    n_ = g.nodes[x]
+                    if n_.kind != 'test' or lab not in ('T', 'F'): return True
+                    v = eval_test(resolve_flags(su.node, n_.ast), atom)
+                    return v is None or v == (lab == 'T')
+                got = callc[0].id in g.reach([g.entry], edge_ok=eo)
                 want = (none_ or opt) and not locked
-                if eval_test(t, atom) is not want: ok = False
-    sess = []
-    ctx.ob('C20-FLOW.exemption-is-exactly-nonoptimistic-or-locked', su, gov, ok,
-           '' if ok else 'the optimistic check is skipped under `not (%s)` with optimistic_session = %s' % (norm(t), [norm(s.value) for s in sess]),
+                if got is not want:
+                    ok = False; witness = 'db_session %s, optimistic=%s, object %s: criteria %s' % ('absent' if none_ else 'present', opt, 'locked' if locked else 'not locked', 'built' if got else 'skipped')
+    gov = callc[0].ast
+    ctx.ob('C20-FLOW.exemption-is-exactly-nonoptimistic-or-locked', su, '_construct_optimistic_criteria_ call', ok,
+           '' if ok else 'the optimistic criteria are not built exactly for optimistic sessions and unlocked objects (%s)' % witness, node=gov,
            expected='if optimistic_session and obj not in cache.for_update')
     src = norm(callc[0].ast)
     names = [x.id for x in ast.walk(callc[0].ast.targets[0]) if isinstance(x, ast.Name)] if isinstance(callc[0].ast, ast.Assign) else []
